@@ -5,8 +5,8 @@ from .. import scenario as sc, clauses as cl
 PROP = "C02"
 LEVEL = "exploration"
 RULE = ("Hypothesis scenarios as for C01 (all residual families incl. noisy and SCRIPT) with emphasis on tiny budgets "
-        "(maxfun in {1,2,3,npt-1,npt,npt+1,10,30,60,150}), nsamples callbacks (constant 2..3 or tables indexed by "
-        "(iteration, run) with entries 0..3), noise flag, soft/hard restarts with/without increase_npt and use_old_rk. "
+        "(maxfun in {1,2,3,npt-1,npt,npt+1,10,30,60,150}), nsamples callbacks in 45% of the cases (constant 2..3, tables indexed by "
+        "(iteration, run) with entries 0..3, or a rule on (delta, rho) whose answer changes within an iteration), noise flag, soft/hard restarts with/without increase_npt and use_old_rk. "
         "Observed: recorded calls, the log records 'Function eval i at point j', the interleaving of nsamples callbacks "
         "with evaluations, soln.nf/nx. Non-trivial = the budget was binding (nf == maxfun) or >= 1 restart happened or "
         "some point was sampled more than once. Distinct = SHA-1 of the case JSON.")
@@ -15,7 +15,7 @@ ASSUMPTIONS = ["evaluation/point numbers are read from dfols' own INFO log line 
                "since the previous point's first evaluation (or the latest value if it was not asked in between); only the "
                "last point of a budget-exhausted run may have fewer"]
 
-PROF = sc.make_prof(maxfuns=[1, 2, 3, "npt-1", "npt", "npt+1", 10, 30, 60, 150, 5, 7], diag=0.2)
+PROF = sc.make_prof(maxfuns=[1, 2, 3, "npt-1", "npt", "npt+1", 10, 30, 60, 150, 5, 7, 20, 45, 90], diag=0.2, avg_prob=0.45)
 
 
 def run(case):
@@ -42,5 +42,5 @@ def run(case):
     return res
 
 
-PROFILES = {"solve": Profile("solve", lambda: sc.scenarios(PROF), run, quick=5000, thorough=150000, timeout=120)}
+PROFILES = {"solve": Profile("solve", lambda: sc.scenarios(PROF), run, quick=20000, thorough=300000, timeout=120)}
 KNOWN = {}
